@@ -239,7 +239,7 @@ pub fn plan(property: &str) -> Option<CheckPlan> {
                 v.push("server, in the re-registration-observer family and for the impostor outages only: a raw QUIC endpoint with the real TLS configuration that records / refuses registration frames");
                 v
             },
-            items: vec![PlanItem { family: &nsim::reconnect::RECONNECT, quick: 504, thorough: 33_600 }, PlanItem { family: &nsim::rereg::REREG, quick: 200, thorough: 8_000 }, PlanItem { family: &nsim::chaos::CHAOS, quick: 150, thorough: 6_000 }],
+            items: vec![PlanItem { family: &nsim::reconnect::RECONNECT, quick: 504, thorough: 33_600 }, PlanItem { family: &nsim::rereg::REREG, quick: 200, thorough: 8_000 }, PlanItem { family: &nsim::chaos::CHAOS, quick: 150, thorough: 6_000 }, PlanItem { family: &nsim::reqrep_e2e::REQREP_E2E, quick: 300, thorough: 12_000 }],
         }),
         "C13" => Some(CheckPlan {
             property: "C13",
